@@ -65,8 +65,10 @@ Print Assumptions C37_first_round_id_check.
 
 (* after any history of writes and rounds (with any failures), a round that succeeds leaves in
    storage an object with every change up to the index it read; with no write racing that
-   round, that is every committed change *)
-Theorem C37_history_newest_object_reflects_all : forall db0 rid0 rdata0 evs e,
+   round, that is every committed change.
+   PARTIAL: "change" here (and in `changed` above) is a change that moved the applied index
+   (EvWrite).  What is missing is exactly what the next theorem refutes. *)
+Theorem C37_history_newest_object_reflects_all_partial : forall db0 rid0 rdata0 evs e,
   incr 0 db0 ->
   let w := run (fresh db0 rid0 rdata0) evs in
   wf_evs (fresh db0 rid0 rdata0) evs -> wf_ev w (EvRound e) ->
@@ -77,4 +79,15 @@ Theorem C37_history_newest_object_reflects_all : forall db0 rid0 rdata0 evs e,
   (e_mid e = [] -> forall c, In c (w_db w') -> In c (w_rdata w')) /\
   (w_db w' <> [] -> last_index (w_db w) <= w_last w' \/ w_rid w' = Some (last_index (w_db w))).
 Proof. exact history_newest_object_reflects_all. Qed.
-Print Assumptions C37_history_newest_object_reflects_all.
+Print Assumptions C37_history_newest_object_reflects_all_partial.
+
+(* REFUTED for changes that do not move the applied index (EvSilent; reproduced on the real
+   store, known finding C37:change-without-index-not-uploaded): after such a change every
+   round skips and the stored object stays behind the database. *)
+Theorem C37_unindexed_change_refuted :
+  exists evs, wf_evs (fresh [] None []) evs /\
+    let w := run (fresh [] None []) evs in
+    forall n, let w' := run w (repeat (EvRound clean0) n) in
+      behind w' /\ snd (fst (round w' clean0)) = OSkipped.
+Proof. exact unindexed_change_refuted. Qed.
+Print Assumptions C37_unindexed_change_refuted.
